@@ -206,13 +206,17 @@ def sweep_refined(exe, name, desc, sizes, budget):
                     m = a + 4
                 if m < b:
                     mids.append(m)
+        # never starve a boundary: when the budget runs out the widest gaps are halved first
+        mids.sort(key=lambda m: (-min(m - max(x for x in ns if x < m), min(x for x in ns if x > m) - m), m))
         mids = mids[:max(0, budget - extra)]
         if not mids:
             break
         for r in sweep(exe, name, desc, mids):
             runs[r["N"]] = r
         extra += len(mids)
-    return [runs[n] for n in sorted(runs)], extra
+    ns = sorted(runs)
+    gaps = [b - a for a, b in zip(ns, ns[1:]) if raw_key(runs[a]) != raw_key(runs[b])]
+    return [runs[n] for n in ns], (extra, len(gaps), max(gaps) if gaps else 0)
 
 
 def sweep(exe, name, desc, sizes):
@@ -245,7 +249,7 @@ def run(ctx):
     models = sorted(POOL) if not ctx.quick else ["boxes", "boxmid", "fixed", "many", "multi4", "pgs1", "single", "stacks", "stacksns"]
     J = {}
     with cf.ThreadPoolExecutor(16) as ex:
-        J["mc"] = ex.submit(tlc.run, SPEC, cfgp("ArenaStep_MC.cfg"), coverage=True, timeout=1800, workers=4)
+        J["mc"] = ex.submit(tlc.run, SPEC, cfgp("ArenaStep_MCq.cfg" if ctx.quick else "ArenaStep_MC.cfg"), coverage=True, timeout=1800, workers=4)
         J["steps"] = ex.submit(tlc.run, SPEC, cfgp("ArenaStep_Steps.cfg"), coverage=True, timeout=1800, workers=2)
         J["pair"] = ex.submit(tlc.run, SPEC, cfgp("ArenaStep_AsIsPair.cfg"), timeout=900, workers=1)
         J["island"] = ex.submit(tlc.run, SPEC, cfgp("ArenaStep_AsIsIsland.cfg"), timeout=900, workers=1)
@@ -265,11 +269,13 @@ def run(ctx):
             for variant in ("plain", "asan"):
                 sz = sizes_for(refs[mn]["maxuse"], ctx.quick, variant)
                 futs[(mn, variant)] = ex.submit(sweep_refined, exes[variant], mn, POOL[mn]["desc"], sz,
-                                                (250 if variant == "plain" else 120) if ctx.quick else (1500 if variant == "plain" else 500))
-        nrefine = 0
+                                                (160 if variant == "plain" else 48) if ctx.quick else (1500 if variant == "plain" else 400))
+        nrefine = nbound = maxgap = 0
         for k, f in futs.items():
-            runs[k], nx = f.result()
+            runs[k], (nx, nb, mg) = f.result()
             nrefine += nx
+            nbound += nb
+            maxgap = max(maxgap, mg)
         J = {k: v.result() for k, v in J.items()}
 
     need = ["Begin", "Broad", "PushPair", "Narrow", "Contacts", "MakeCon", "Island", "ProjY", "ProjA", "Solve", "Reset", "NoArena"]
@@ -290,6 +296,18 @@ def run(ctx):
     groups = {}
     for (mn, variant), rs in sorted(runs.items()):
         consz = refs[mn]["consz"]
+        # a death is classified by how the child died and by what the largest smaller memory size that survived
+        # did: that names the allocation site whose failure is not handled (the plain build has no stack trace)
+        below = "nothing-smaller"
+        for r in rs:                       # rs is sorted by N
+            if "died" in r:
+                r["below"] = below
+            else:
+                pe = [x for x in project(r, refs[mn], POOL[mn]["percon"], consz) if x["kind"] not in ("reset", "reset-failed")]
+                below = ev_sig(pe[-1]) if pe else "none"
+                if pe and pe[-1]["kind"] == "error" and r.get("steps"):
+                    st = r["steps"][-1]       # how far the step had come when the error was raised
+                    below += "(ncon%s,nefc%s)" % (">0" if st["ncon"] else "=0", ">0" if st["nefc"] else "=0")
         for r in rs:
             evs = project(r, refs[mn], POOL[mn]["percon"], consz)
             key = json.dumps(evs, sort_keys=True)
@@ -331,17 +349,20 @@ def run(ctx):
         for (mn, variant, r) in g["runs"]:
             byv.setdefault((mn, variant), []).append(r)
         # one violation per failing input class: the unexplained event (and, for a death, how the child died)
-        deaths = sorted({(r["died"], r["kind"], r["where"]) for (_m, _v, r) in g["runs"] if "died" in r})
+        deaths = sorted({(r["died"], r["kind"], r["where"], r["below"]) for (_m, _v, r) in g["runs"] if "died" in r})
         if e["kind"] == "crash":
-            for (died, kind, where) in deaths:
-                rs = [(m, v, r) for (m, v, r) in g["runs"] if r.get("died") == died and r["kind"] == kind and r["where"] == where]
+            for (died, kind, where, below) in deaths:
+                rs = [(m, v, r) for (m, v, r) in g["runs"] if r.get("died") == died and r["kind"] == kind and r["where"] == where
+                      and r["below"] == below]
                 m0, v0, r0 = rs[0]
-                sig = "step:died:%s:%s%s" % (v0 if kind != "-" else "plain", died if kind == "-" else kind, "" if where == "-" else "@" + where)
+                sig = "step:died:%s:%s%s:above:%s" % (v0 if kind != "-" else "plain", died if kind == "-" else kind,
+                                                      "" if where == "-" else "@" + where, below)
                 ns = sorted({r["N"] for (_m, _v, r) in rs})
                 ctx.violation(sig, "mj_step dies (%s%s%s) instead of raising a warning or a catchable error: %d runs, e.g. model %s "
-                              "(%s build) with memory = %d bytes; models %s, sizes %d..%d" % (
+                              "(%s build) with memory = %d bytes; models %s, sizes %d..%d; the largest smaller size that survives "
+                              "ends in: %s" % (
                                   died, "" if kind == "-" else " " + kind, "" if where == "-" else " in " + where, len(rs), m0, v0,
-                                  r0["N"], sorted({m for (m, _v, _r) in rs}), ns[0], ns[-1]),
+                                  r0["N"], sorted({m for (m, _v, _r) in rs}), ns[0], ns[-1], below),
                               {"model": m0, "desc": POOL[m0]["desc"], "variant": v0, "N": r0["N"], "nsteps": NSTEPS,
                                "events": g["ev"], "percon": POOL[m0]["percon"]})
         else:
@@ -357,13 +378,13 @@ def run(ctx):
                            "events": g["ev"], "percon": POOL[m0]["percon"]})
     nruns = sum(len(v) for v in runs.values())
     ctx.cov["exhaustive"] = False
-    ctx.cov["rule"] = ("design: every capacity 0..32 x 192 demand profiles (1 step) and 0..24 x 3 profiles (3 steps, with the "
+    ctx.cov["rule"] = ("design: every capacity x demand profile (quick: 0..24 x 48, thorough: 0..32 x 192; 1 step) and 0..24 x 3 profiles (3 steps, with the "
                        "liveness property that a step returns); binding: %d runs = %d pool models x memory sizes 0..maxuse+1500 "
-                       "(stride %s bytes, every 4-16 bytes near zero and near the full size, plus %d bisection runs that locate "
-                       "every change of outcome between neighbouring sizes to 4 bytes) x {plain, asan}, 3 steps each in a "
+                       "(stride %s bytes, every 4-16 bytes near zero and near the full size, plus %d bisection runs that narrow "
+                       "every change of outcome between neighbouring sizes: %d boundaries, widest remaining gap %d bytes) x {plain, asan}, 3 steps each in a "
                        "forked child; %d distinct observable event sequences validated by ArenaStepTrace; non-trivial = the run "
                        "hit a warning, an error or died; distinct = (model, build, N)" % (
-                           nruns, len(models), "168 / 840(asan)" if ctx.quick else "40 / 232(asan)", nrefine, len(traces)))
+                           nruns, len(models), "168 / 840(asan)" if ctx.quick else "40 / 232(asan)", nrefine, nbound, maxgap, len(traces)))
 
 
 def replay(ctx, rp):
